@@ -479,6 +479,8 @@ func C06() int {
 	// singleton references: a fresh process given only that line
 	c06Singles(s, c, singles, singleBudget, fsets)
 
+	c06OutputNamesInput(s, c, pool)
+
 	c.Set("flag_sets", flagNames(fsets))
 	c.Set("runs_onto_an_existing_longer_output_file", staleRuns)
 	raceVerdict(s, c)
@@ -536,4 +538,71 @@ func c06PadTo(l c06Line, n int) (c06Line, bool) {
 	out = append(out, bytes.Repeat([]byte("p"), need)...)
 	out = append(out, '"', '}')
 	return c06Line{raw: out, obj: true, tag: l.tag, cls: "padded"}, len(out) == n
+}
+
+// c06OutputNamesInput: --outputFile names the very file the input is read from (the same path, another
+// spelling of it, a symbolic or a hard link). A run that reports success has written "exactly one line
+// for each input line that is a JSON object" to that file — or the job is refused. What never fits the
+// statement is a successful run whose output is not the redaction of the log it was given.
+func c06OutputNamesInput(s *sut.SUT, c *ev.Check, pool []c06Line) {
+	var lines [][]byte
+	for _, l := range pool {
+		if l.obj && len(l.raw) < 4000 && len(lines) < 25 {
+			lines = append(lines, l.raw)
+		}
+	}
+	data := append(bytes.Join(lines, []byte("\n")), '\n')
+	ref := s.CLI(sut.Run{Args: []string{"redact"}, Stdin: data, Dir: s.Scratch})
+	if ref.TimedOut || ref.Exit != 0 {
+		c.Inconclusive("reference run for the in-place cases failed")
+		return
+	}
+	variants := []string{"same-path", "other-spelling", "symlink-to-input", "hard-link-of-input", "input-through-symlinked-directory"}
+	for vi, v := range variants {
+		for _, gzIn := range []bool{false, true} {
+			dir := s.TempDir("c06same")
+			name := "app.log"
+			content := data
+			if gzIn {
+				name, content = "app.log.gz", gz(data)
+			}
+			in := filepath.Join(dir, name)
+			os.WriteFile(in, content, 0o644)
+			outp := in
+			switch v {
+			case "other-spelling":
+				os.Mkdir(filepath.Join(dir, "sub"), 0o755)
+				outp = dir + "/sub/..//./" + name
+			case "symlink-to-input":
+				outp = filepath.Join(dir, "latest"+filepath.Ext(name))
+				os.Symlink(in, outp)
+			case "hard-link-of-input":
+				outp = filepath.Join(dir, "alias"+filepath.Ext(name))
+				os.Link(in, outp)
+			case "input-through-symlinked-directory":
+				os.Symlink(dir, filepath.Join(dir, "dl"))
+				outp = filepath.Join(dir, "dl", name)
+			}
+			r := s.CLI(sut.Run{Args: []string{"redact", in, "-o", outp}, Dir: dir})
+			got, _ := os.ReadFile(outp)
+			after, _ := os.ReadFile(in)
+			os.RemoveAll(dir)
+			if r.TimedOut {
+				c.Inconclusive("watchdog")
+				continue
+			}
+			c.Count("runs_whose_output_file_is_the_input_file", 1)
+			c.Eval(fmt.Sprintf("in-place|%s|gz=%v|%d", v, gzIn, vi))
+			if r.Exit == 0 && !bytes.Equal(got, ref.Stdout) {
+				c.Violation("output-file-is-the-input|"+v, fmt.Sprintf("redact %s -o <%s> (%d input lines): exit 0, but the output file holds %d bytes / %d lines instead of the %d redacted lines", name, v, len(lines), len(got), len(splitLines(got)), len(splitLines(ref.Stdout))),
+					map[string]any{"kind": "output-names-input", "variant": v, "gzip_input": gzIn, "exit": r.Exit, "stderr": short(r.Stderr, 200)})
+			}
+			if r.Exit != 0 {
+				c.Count("in_place_jobs_refused", 1)
+				if !bytes.Equal(after, content) {
+					c.Count("in_place_jobs_refused_after_the_input_was_destroyed", 1)
+				}
+			}
+		}
+	}
 }
